@@ -385,7 +385,7 @@ def stage_traces(ctx, name, *, n_traces, length, base=0):
         return
     consts = consts_of(name)
     rec = None
-    if consts["Addrs"]:
+    if consts["Addrs"] or consts["Symbols"]:
         from . import judge
         rec = judge.Recorder(consts, seed=ctx.seed + 5, per_step=6)
     path, traces = record_traces(ctx, name, consts, n_traces, length, base, rec)
